@@ -1729,3 +1729,18 @@ package ion
 
 //@ func NewBinaryWriterLST
 //@ ensures[C11] result != nil && vcAsBinaryWriter(result) != nil && vcAsBinaryWriter(result).lst == lst && !vcAsBinaryWriter(result).wroteLST && vcAsBinaryWriter(result).err == nil
+
+// ---------------------------------------------------------------------------
+// Round-trip lemmas over the specification functions (C01, C13): what the encoders are
+// proved to write is what the decoders are proved to read back, for every 64-bit value.
+
+//@ lemma[C01,C13] uintRoundTrip [data []byte, p int, v uint64] 0 <= p && p <= len(data) && p+8 <= len(data) && specHoldsUint(data, p, v) ==> specBEValue(data, p, specUintLen(v)) == v
+//@ lemma[C01,C13] varUintRoundTripLen [data []byte, p int, v uint64] 0 <= p && p <= len(data) && p+10 <= len(data) && specHoldsVarUint(data, p, v) ==>
+//@    specVarUintEndAt(data, p) == specVarUintLen(v)
+//@ lemma[C01,C13] varUintRoundTripStop [data []byte, p int, v uint64] 0 <= p && p <= len(data) && p+10 <= len(data) && specHoldsVarUint(data, p, v) ==>
+//@    specVarUintStop(data, p, specVarUintLen(v))
+//@ lemma[C01,C13] varUintRoundTripValue [data []byte, p int, v uint64] 0 <= p && p <= len(data) && p+10 <= len(data) && specHoldsVarUint(data, p, v) ==>
+//@    specVarUintValue(data, p, specVarUintLen(v)) == v
+//@ lemma[C01,C13] varIntRoundTrip [data []byte, p int, v int64] 0 <= p && p <= len(data) && p+10 <= len(data) && specHoldsVarInt(data, p, v) ==>
+//@    specVarUintEndAt(data, p) == specVarIntLen(v) && specVarIntValue(data, p, specVarIntLen(v)) == v && (v < 0 ==> specVarIntSign(data, p) == -1) && (v > 0 ==> specVarIntSign(data, p) == 1)
+//@ lemma[C01,C13] intMagnitudeRoundTrip [v int64] v != 0 ==> specUintLen(specMag(v)) >= 1 && specUintLen(specMag(v)) <= 8 && ((specIntCode(v) == 0x30) == (v < 0))
